@@ -198,9 +198,21 @@ class Runner:
             r["eager_user"] = ("err", "refused: " + refusal)
         else:
             r["graph"] = g.run(X, vals)
-            r["skel"] = g.skeleton(vals) if g.proto is not None else None
+            r["skel"] = None
+            if g.proto is not None:
+                try:
+                    r["skel"] = g.skeleton(vals)
+                    clist(r["skel"], c_op)          # every op / operand must be expressible in the model's vocabulary
+                except ValueError as e:             # a graph of a shape the model does not know: a disagreement, not a crash
+                    r["skel"] = None
+                    r["skel_error"] = f"emitted graph outside the model's vocabulary: {e}"
             r["eager"], r["eskel"] = impl.eager_run(fn, X, vals)
             r["eager_user"] = r["eager"]
+        try:
+            clist(r["eskel"], c_op)
+        except ValueError as e:
+            r["eskel_error"] = f"eager op calls outside the model's vocabulary: {e} ({r['eskel']!r})"
+            r["eskel"] = None
         return r
 
 
@@ -257,6 +269,10 @@ def process(ctx, runner, cases, stream, state):
             skel, graph_o = None, None
         lits.append(c_case(shape, idx, o_np, graph_o, r["eager"], skel, r["eskel"]))
         metas.append((shape, idx, r))
+        if "skel_error" in r:
+            state["skel_errors"].append((stream, (shape, idx, r)))
+        if "eskel_error" in r:
+            state["eskel_errors"].append((stream, (shape, idx, r)))
         if state["n"] % 97 == 1:
             ctx.sample({"stream": stream, "shape": list(shape), "expr": f"X[{r['src']}]", "tensor_values": r["vals"],
                         "numpy": o_np[1].tolist() if o_np[0] == "ok" else "error",
@@ -311,6 +327,9 @@ def coq_compare(ctx, state, shard=400):
             for i in common.parse_nat_list(v):
                 bad[e].append((stream, metas[i]))
     state["pending"] = []
+    for fx in ("false", "true"):            # graphs / op calls the model cannot even express disagree with both variants
+        bad[f"skel_agrees {fx}"] = state["skel_errors"] + bad[f"skel_agrees {fx}"]
+        bad[f"eskel_agrees {fx}"] = state["eskel_errors"] + bad[f"eskel_agrees {fx}"]
     return bad
 
 
@@ -321,7 +340,8 @@ def report(ctx, bad, n_cases):
                 f"{r['np'][1].tolist() if r['np'][0] == 'ok' else 'error'}, graph "
                 f"{r['graph'][1].tolist() if r['graph'][0] == 'ok' else r['graph'][1][:80]}, eager "
                 f"{r['eager'][1].tolist() if r['eager'][0] == 'ok' else r['eager'][1][:80]}, emitted {r['skel']!r}, "
-                f"eager calls {r['eskel']!r}")
+                f"eager calls {r['eskel']!r}" + (" -- " + r["skel_error"] if "skel_error" in r else "")
+                + (" -- " + r["eskel_error"] if "eskel_error" in r else ""))
 
     b = bad["np_agrees"]
     ctx.obligation(f"correspondence NumPy = NumpySpec.np_index on {n_cases} cases", not b, show(b[0]) if b else "")
@@ -481,11 +501,11 @@ def report_diffs(ctx, state, bad, variants):
     """A front end returned a tensor that is not NumPy's: VIOLATION, keyed by its structural class when the model of
     the code predicts exactly that tensor, as 'unexplained' otherwise."""
     fx = {"pinned": "false", "gather-axis-fix": "true", "neither": "false"}
-    unexplained = {"converter": {id(m[2]) for _, m in bad[f"graph_agrees {fx[variants['converter']]}"]},
-                   "eager": {id(m[2]) for _, m in bad[f"eager_agrees {fx[variants['eager']]}"]}}
+    unexplained = {"converter": {id(m[2]) for _, m in bad[f"graph_agrees {fx[variants['converter']]}"] + state["skel_errors"]},
+                   "eager": {id(m[2]) for _, m in bad[f"eager_agrees {fx[variants['eager']]}"] + state["eskel_errors"]}}
     seen = {}
     unknown_reported = set()
-    diffs = sorted(state["diffs"], key=lambda t: (len(t[4]), int(np.prod(t[3])), len(t[3]), str(t[4])))
+    diffs = sorted(state["diffs"], key=lambda t: (0 in t[3], t[5]["np"][0] != "ok", t[6][1].size == 0, len(t[4]), int(np.prod(t[3])), len(t[3]), str(t[4])))
     for front, stream, _i, shape, idx, r, o in diffs:
         cls = classify(front, shape, idx, fixed=variants[front] == "gather-axis-fix")
         if id(r) in unexplained[front] and not cls.startswith("unclassified"):
@@ -503,7 +523,8 @@ def report_diffs(ctx, state, bad, variants):
         o_np = r["np"]
         ctx.violation(key,
                       f"{front}: X[{r['src']}] on shape {tuple(shape)} (tensor-valued parts {r['vals']}) returns "
-                      f"{o[1].tolist()} while NumPy " + (f"returns {o_np[1].tolist()}" if o_np[0] == "ok" else f"raises {o_np[1]}"),
+                      f"{o[1].tolist()} of shape {tuple(o[1].shape)} while NumPy "
+                      + (f"returns {o_np[1].tolist()} of shape {tuple(o_np[1].shape)}" if o_np[0] == "ok" else f"raises {o_np[1]}"),
                       {"front": front, "stream": stream, "shape": list(shape), "idx": [list(c) for c in idx],
                        "source": f"X[{r['src']}]", "tensor_values": r["vals"],
                        "numpy": o_np[1].tolist() if o_np[0] == "ok" else o_np[1],
@@ -523,7 +544,7 @@ def run(ctx):
                "quantifier and are not generated")
     ctx.check_props()
     state = {"n": 0, "outcomes": collections.Counter(), "diff": collections.Counter(), "identity_refused": 0,
-             "pending": [], "diffs": [], "streams": {}}
+             "pending": [], "diffs": [], "streams": {}, "skel_errors": [], "eskel_errors": []}
     runner = Runner(ctx)
     rng = ctx.rng
     thorough = ctx.tier == "thorough"
